@@ -116,6 +116,14 @@ C10_FORMS = {
 }
 
 PARTS = {
+    "C19": [
+        (G, "gosym_part", dict(name="c19_static_types", entry="internal/zzverif.C19Types",
+                               required_sites=("accept-reject-independent-of-operand-order", "type-independent-of-operand-order", "integer-power-is-float64", "result-kind-is-widest-operand-kind"),
+                               assumptions=["documented rule used: `**` on integers yields float64 (docs/*/language.md); otherwise the result kind is the widest operand kind "
+                                            "(integer < floating point < complex) and, for same-kind operands, at least as wide as both"],
+                               desc="real dsl.Validate (resolveComputedFields, GetCommonType, insertConversion) on `a op b` and `b op a` for symbolic numeric primitive types of a, b "
+                                    "(13 x 13) and all 5 operators: accept/reject and static type do not depend on operand order; kind/width of the result")),
+    ],
     "C10": [C10_FORMS[f] for f in (0, 1, 3, 4, 5)] + [only_thorough(C10_FORMS[f]) for f in (2, 6)],
     "C09": [
         (G, "gosym_part", dict(name="c09_base", entry="internal/zzverif.C09Base", required_sites=("base-accepted",), assumptions=C09_ASSUME,
@@ -253,6 +261,10 @@ NOTES = ("Every claim is bounded: 'holds' means unsat within the stated bound. E
 NOT_APPLICABLE = {}
 
 CLAIMS = {
+    "C19": dict(text="Bounded symbolic execution (gosym) of computed-field type inference on `a op b` vs `b op a` for every ordered pair of the 13 numeric primitive types "
+                     "(symbolic, solver-decided) and every operator: verdict and static type are symmetric, `**` on integers is float64, result kind = widest operand kind.",
+                note="Static typing only so far; agreement of the three expression emitters and of host-language operator semantics (e.g. Python // vs C++ /) is a separate part "
+                     "(see DESIGN: F6) and nested expressions / switch typing are not covered."),
     "C10": dict(text="Bounded symbolic execution (gosym) of the whole real validation pipeline on a record with every kind of field plus one computed field whose expression ranges "
                      "over every expression form (literals, member access, unary, binary, subscript with 0-2 possibly labelled arguments, the three built-in functions with 0-3 "
                      "arguments, conversions, switch with every pattern kind) applied to every kind of target: dsl.Validate never panics and every error is located. Two panics found "
